@@ -147,6 +147,7 @@ class Unit:
                 ft.drop_prints()
                 outlined = []
                 signature = None
+                external_body = False
                 for head, body in subs:
                     text = '\n'.join(body)
                     parts = head.split(None, 1)
@@ -154,6 +155,8 @@ class Unit:
                     rest = parts[1] if len(parts) > 1 else ''
                     if op == 'CONTRACT':
                         ft.add_contract(text)
+                    elif op == 'EXTERNAL-BODY':
+                        external_body = True
                     elif op == 'RETURNS':
                         ft.name_return(rest.strip())
                     elif op == 'SIGNATURE':
@@ -202,6 +205,9 @@ class Unit:
                     self.assumptions.append('O1 outline (assumed contract, body is the verbatim expression): ' + norm(sig_text))
                     self.emit(helper, 'generated:outline')
                     start = len(self.out_lines) + 1
+                if external_body:
+                    txt = '#[verifier::external_body]\n' + txt
+                    self.assumptions.append('ASSUMED contract (external_body, body extracted verbatim but not verified): %s in %s' % (kv['fn'], src.display))
                 self.emit(txt, 'repo:%s:%s' % (src.display, kv['fn']))
                 end = len(self.out_lines)
                 self.extracted_text.append(txt)
@@ -209,7 +215,7 @@ class Unit:
                 self.manifest.append(man)
                 props = kv.get('props', '').split(',') if kv.get('props') else []
                 self.obligations.append({
-                    'name': kv.get('as', kv['fn']), 'fn': kv['fn'], 'kind': 'contract-on-real-code',
+                    'name': kv.get('as', kv['fn']), 'fn': kv['fn'], 'kind': 'assumed-contract' if external_body else 'contract-on-real-code',
                     'props': props, 'lines': [start, end], 'file': src.display,
                     'container': kv.get('in'), 'sha256': man['sha256'], 'vname': kv.get('vname'),
                 })
